@@ -36,19 +36,51 @@ pub struct Step {
     pub detached: bool,
     /// class tag for the histogram / finding classification
     pub class: &'static str,
+    /// effect on the probed variables in the model's vocabulary (names: 0 = inherited, 1 = X, 2 = Y):
+    /// `a<n>:<hex>` assign, `e<n>:<hex>` export, `u<n>` unset, `r<n>:<hex>` readonly, `o` none
+    pub action: String,
+    /// index into `step_pool()` (for replay)
+    pub idx: usize,
 }
 
-const PROBE: &str = r#"echo "X=${X-unset}|Y=${Y-unset}|INH=${SCRUT_VERIF_INHERITED-unset}"; declare -p ARR 2>/dev/null || echo "ARR unset"; declare -p MAP 2>/dev/null || echo "MAP unset"; if declare -F f >/dev/null; then f; else echo "f undefined"; fi; alias ll 2>/dev/null || echo "ll unaliased"; shopt -p extglob; set -o | grep -E '^(pipefail|nounset|noglob) '; pwd; dirs; export -p | grep -cE ' (X|Y)='"#;
+/// first line: the three probed variables, hex encoded (`S:<hex>` set, `U` unset), so that values with
+/// newlines, quotes or non-ASCII text are compared exactly; further lines: the other state classes
+const PROBE: &str = r#"printf 'VARS %s|%s|%s\n' "$( [ -n "${SCRUT_VERIF_INHERITED+s}" ] && { printf 'S:'; printf %s "$SCRUT_VERIF_INHERITED" | od -An -v -tx1 | tr -d ' \n'; } || printf U )" "$( [ -n "${X+s}" ] && { printf 'S:'; printf %s "$X" | od -An -v -tx1 | tr -d ' \n'; } || printf U )" "$( [ -n "${Y+s}" ] && { printf 'S:'; printf %s "$Y" | od -An -v -tx1 | tr -d ' \n'; } || printf U )"; declare -p ARR 2>/dev/null || echo "ARR unset"; declare -p MAP 2>/dev/null || echo "MAP unset"; if declare -F f >/dev/null; then f; else echo "f undefined"; fi; alias ll 2>/dev/null || echo "ll unaliased"; shopt -p extglob; set -o | grep -E '^(pipefail|nounset|noglob) '; pwd; dirs; export -p | grep -cE ' (X|Y)='"#;
 
 fn step_pool() -> Vec<Step> {
-    let s = |snippet: &str, class: &'static str| Step { snippet: snippet.to_string(), detached: false, class };
+    let mut v = step_pool_raw();
+    for (i, s) in v.iter_mut().enumerate() {
+        s.idx = i;
+    }
+    v
+}
+
+fn step_pool_raw() -> Vec<Step> {
+    let s = |snippet: &str, class: &'static str| {
+        let hv = |v: &str| hex(v.as_bytes());
+        let action = match snippet {
+            "X=plain" => format!("a1:{}", hv("plain")),
+            "X='with space and \"quotes\" and $dollar'" => format!("a1:{}", hv("with space and \"quotes\" and $dollar")),
+            "X=$'line1\\nline2'" => format!("a1:{}", hv("line1\nline2")),
+            "X='ünïcödé ✓'" => format!("a1:{}", hv("ünïcödé ✓")),
+            "export Y=exported" => format!("e2:{}", hv("exported")),
+            "Y=modified" => format!("a2:{}", hv("modified")),
+            "unset X" => "u1".to_string(),
+            "unset Y" => "u2".to_string(),
+            "unset SCRUT_VERIF_INHERITED" => "u0".to_string(),
+            "SCRUT_VERIF_INHERITED=changed" => format!("a0:{}", hv("changed")),
+            "readonly X=frozen" => format!("r1:{}", hv("frozen")),
+            _ => "o".to_string(),
+        };
+        Step { snippet: snippet.to_string(), detached: false, class, action, idx: 0 }
+    };
     vec![
         s("X=plain", "shellvar"),
         s("X='with space and \"quotes\" and $dollar'", "shellvar-quoting"),
         s("X=$'line1\\nline2'", "shellvar-newline"),
         s("X='ünïcödé ✓'", "shellvar-nonascii"),
         s("export Y=exported", "exported"),
-        s("export Y='a b'; Y=\"$Y c\"", "exported-modify"),
+        s("Y=modified", "exported-modify"),
         s("unset X", "unset-own"),
         s("unset Y", "unset-own"),
         s("unset SCRUT_VERIF_INHERITED", "unset-inherited"),
@@ -57,7 +89,7 @@ fn step_pool() -> Vec<Step> {
         s("ARR+=(four)", "array-modify"),
         s("declare -A MAP=([k1]=v1 ['k 2']='v 2')", "assoc"),
         s("unset ARR", "unset-own"),
-        s("f() { echo \"f says $X\"; }", "function"),
+        s("f() { echo \"f says ${X-none}\"; }", "function"),
         s("f() { local a=1; g() { echo inner; }; g; echo outer; }", "function-nested"),
         s("unset -f f", "function-unset"),
         s("alias ll='echo aliased'", "alias"),
@@ -73,7 +105,7 @@ fn step_pool() -> Vec<Step> {
         s("mkdir -p d1 d2 && pushd d1 >/dev/null && pushd ../d2 >/dev/null", "dirstack"),
         s("popd >/dev/null 2>&1 || true", "dirstack"),
         s("readonly X=frozen", "readonly"),
-        Step { snippet: "X=from-detached; export Y=from-detached; cd /".to_string(), detached: true, class: "detached" },
+        Step { snippet: "X=from-detached; cd /".to_string(), detached: true, class: "detached", action: format!("a1:{}", hex(b"from-detached")), idx: 0 },
     ]
 }
 
@@ -183,15 +215,15 @@ fn history_case(prop: &str, steps: Vec<Step>, root: &Path, idx: u64) -> CaseRec 
     }
     // detached leaves nothing behind: the state file must not change across a detached step (observed via the probes above)
     let _ = std::fs::remove_dir_all(&dir);
-    let op_steps: Vec<String> = steps.iter().map(|s| format!("{}{}", if s.detached { "D:" } else { "" }, hex(s.snippet.as_bytes()))).collect();
+    let op_steps: Vec<String> = steps.iter().map(|s| format!("{}{}@{}", if s.detached { "D:" } else { "" }, s.action, s.idx)).collect();
     let var_view = |outs: &Result<Vec<String>, String>| -> String {
         match outs {
-            Ok(v) => v.iter().map(|s| s.lines().next().unwrap_or("").to_string()).filter(|l| l.starts_with("X=")).collect::<Vec<_>>().join(";"),
+            Ok(v) => v.iter().map(|s| if s == "<detached>" { "D".to_string() } else { s.lines().find(|l| l.starts_with("VARS ")).map(|l| l[5..].to_string()).unwrap_or("?".into()) }).collect::<Vec<_>>().join(";"),
             Err(_) => "error".into(),
         }
     };
     CaseRec {
-        op: format!("shvars {}", op_steps.join(",")),
+        op: format!("shvars {} {}", hex(b"inherited-value"), op_steps.join(",")),
         impl_out: var_view(&a),
         oracle_fail: keep(prop, fails),
         nontrivial: steps.len() >= 2,
@@ -215,10 +247,11 @@ pub fn run(ctx: &Ctx, prop: &str) {
     });
     let r2 = root.clone();
     let p2 = pool.clone();
-    ctx.run_stream("histories-random", if ctx.thorough { 3000 } else { 160 }, false, |idx| {
+    ctx.run_stream("histories-random", if ctx.thorough { 6000 } else { 320 }, false, |idx| {
         let mut rng = Rng::fork(seed, 41, idx);
+        // half of the quick budget goes to pairs (the exhaustive pair scope is in the thorough tier)
         let long = rng.chance(1, 4);
-        let len = rng.range(2, if long { 8 } else { 4 });
+        let len = if idx % 2 == 0 { 2 } else { rng.range(3, if long { 8 } else { 4 }) };
         let steps: Vec<Step> = (0..len).map(|_| rng.pick(&p2).clone()).collect();
         Some(history_case(prop, steps, &r2, 100_000 + idx))
     });
@@ -227,15 +260,16 @@ pub fn run(ctx: &Ctx, prop: &str) {
 
 pub fn replay(prop: &str, op: &str) -> bool {
     let parts: Vec<&str> = op.split_whitespace().collect();
-    if parts.len() != 2 {
+    if parts.len() != 3 {
         return false;
     }
     std::env::set_var("SCRUT_VERIF_INHERITED", "inherited-value");
-    let steps: Vec<Step> = parts[1]
+    let pool = step_pool();
+    let steps: Vec<Step> = parts[2]
         .split(',')
-        .map(|s| {
-            let (d, h) = if let Some(r) = s.strip_prefix("D:") { (true, r) } else { (false, s) };
-            Step { snippet: String::from_utf8_lossy(&unhex(h)).to_string(), detached: d, class: "replay" }
+        .filter_map(|s| {
+            let i: usize = s.rsplit('@').next()?.parse().ok()?;
+            pool.get(i).cloned()
         })
         .collect();
     let root = std::env::temp_dir().join(format!("scrut-verif-shell-replay-{}", std::process::id()));
